@@ -383,8 +383,16 @@ func (jenny RawTypes) defaultsForStructRec(context languages.Context, objectRef 
 		fieldName := formatFieldName(field.Name)
 		defaultValue := ""
 
+		extraDefault, overridden := extraDefaults[field.Name]
+		if _, isMap := field.Type.Default.(map[string]any); !overridden && !isMap && field.Type.Default != nil &&
+			field.Type.IsRef() && resolvedFieldType.IsStructGeneratedFromDisjunction() {
+			// the default declared on a union (`size: string | int | *"m"`) designates one of
+			// its branches, as an override does
+			extraDefault, overridden = field.Type.Default, true
+		}
+
 		// nolint:gocritic
-		if extraDefault, ok := extraDefaults[field.Name]; ok {
+		if overridden {
 			defaultValue = jenny.formatDefaultValue(field.Type, resolvedFieldType, extraDefault)
 
 			if field.Type.IsRef() && resolvedFieldType.IsStructGeneratedFromDisjunction() {
